@@ -181,9 +181,19 @@ theorem C17_conf_assignment (n v s1 s2 s3 s4 tail : Bytes) (hn : PlainTok n) (hv
     (h1 : ∀ c ∈ s1, blank c = true) (h2 : ∀ c ∈ s2, blank c = true) (h3 : ∀ c ∈ s3, blank c = true) (h4 : ∀ c ∈ s4, blank c = true) :
     parseLine (s1 ++ n ++ s2 ++ 0x3d :: (s3 ++ v ++ s4) ++ 0x0a :: tail) = some (n, v) := parseLine_assign n v s1 s2 s3 s4 tail hn hv h1 h2 h3 h4
 
+/-- THE LAST ASSIGNMENT WINS, whatever the file holds before it (damaged lines, other assignments of the same name, binary garbage): a string setting has the value of the
+    last chunk `fgets` delivers that assigns it.  (`load file = loadChunks [] (fileChunks file)` by definition.) -/
+theorem C17_conf_last_assignment_wins (k : String) (pre post : List Bytes) (c n v : Bytes) (s : Settings)
+    (hp : parseLine c = some (n, v)) (hk : typeOf n = some (k, .str)) (hpost : ∀ c' ∈ post, touches k c' = false) :
+    (loadChunks s (pre ++ c :: post)).get k = some (.str v) := loadChunks_last_wins k pre post c n v s hp hk hpost
+
 /-- the loader is a total function of the file's bytes: every file yields at most one value per known setting (no setting is reported twice) -/
 theorem C17_conf_settings_functional (s : Settings) (k : String) (v : CVal) : ((s.set k v).filter (·.1 == k)).length = 1 := by
   simp [Settings.set, List.filter_cons, List.filter_filter]
+
+/-- non-vacuity of the last-assignment theorem: a file that sets the same name three times, with a damaged line in between -/
+example : (load ("log.level = DEBUG\n=\x00junk\nlog.level = INFO\nslots.removable = true\nlog.level = ERROR\n# end\n".toUTF8.toList)).get "log.level"
+    = some (.str "ERROR".toUTF8.toList) := by decide +kernel
 
 /-- non-vacuity: a real line -/
 example : parseLine ("slots.removable\t=  true # as shipped\n".toUTF8.toList) = some ("slots.removable".toUTF8.toList, "true".toUTF8.toList) := by decide +kernel
